@@ -6,6 +6,20 @@ BASELINE = ("cd /repo && cargo nextest run --workspace --no-fail-fast --test-thr
             "|| cargo test --workspace --no-fail-fast --offline")
 
 CHECKS = {
+    "C06": dict(
+        category="exploration",
+        text=("Chains of all six presets are run through the public API on generated configurations (num_tune 0..2000 weighted to small "
+              "values and window boundaries, window fractions, switch/update frequencies, growth, jitter, dual averaging / Adam / fixed) and "
+              "the per-draw statistics are judged by a validity predicate: Progress.tuning and stats.tuning true exactly for draws "
+              "0..num_tune; no transformation change (index or update event) from the first draw of the final step-size window on; from "
+              "the last warmup draw on step_size_bar is constant and every installed / reported step size lies in the jitter band around "
+              "it; construction, set_position and every draw succeed for every num_tune."),
+        design_ref="DESIGN.md section 3, C06",
+        note=("The final-window start is computed from the documented fractions (num_tune - floor(step_size_window*num_tune); flow: "
+              "floor(num_tune*(1-w))). An update event whose id equals the id in force during that trajectory (the initial transformation "
+              "reported on draw 0) is not a change. Runs needing more than 600k density evaluations are skipped."),
+        technique="proptest-generated settings and histories, validity predicate over observed per-draw statistics (public API)",
+    ),
     "C05": dict(
         category="fault_enumeration",
         text=("Short chains of the three NUTS presets (Euclidean and ExactNormal) and the two Euclidean-adapted MCLMC presets are run "
